@@ -1,6 +1,8 @@
 import ComposeVerif.Model.Pipeline
 import ComposeVerif.Props.C02Deep
 import ComposeVerif.Props.C02Stages
+import ComposeVerif.Lemmas.C02StageDefaultsWF
+import ComposeVerif.Lemmas.C02StagePathsWF
 /-!
 # C02 — the composed pipeline (`Model/Pipeline.lean`: `Pipeline.load`) and the order of map entries
 
@@ -268,8 +270,8 @@ theorem resolveEnvironment_mrel {env env' : List (String × String)} (hl : Looku
 
 /-- what is still assumed of the stages without a whole-tree order-independence theorem.  One field per stage; each is the
 statement "two spellings of one tree are treated alike, and keys stay distinct" for that stage as the pipeline runs it.
-`defaultsWF` / `pathsWF` are only the preservation of distinct keys: the order independence of these two stages is proved
-(`setDefaultValues_stage_perm`, `resolve_stage_perm`). -/
+Nothing is assumed of `SetDefaultValues` and `ResolveRelativePaths`: order independence (`setDefaultValues_stage_perm`,
+`resolve_stage_perm`) and preservation of distinct keys (`setDefaultValues_preserves_wf`, `resolvePaths_preserves_wf`) are proved. -/
 structure Residual (c c' : Cfg) : Prop where
   /-- `ApplyExtends` is outside (C05 owns it; `applyExtends_order_independent` is about C02's own model of it) -/
   extendsOff : c.opts.skipExtends = true
@@ -281,8 +283,6 @@ structure Residual (c c' : Cfg) : Prop where
   schema : c.opts.skipValidation = false → RespectsV (schemaStage c.opts)
   canonical : RespectsV (fun d => ofShort (Short.canonical c.opts.skipInterpolation d))
   omitEmpty : RespectsV (omitEmpty c.omitPats)
-  defaultsWF : ∀ kvs r, MWF kvs → C11.setDefaultValues Gen.defaultValues kvs = .ok r → WF r
-  pathsWF : ∀ v r, WF v → Paths.resolve c.paths v = .ok r → WF r
   /-- `Normalize` with the two spellings of the environment (`normalize_stage_perm` covers the two mappings it ranges) -/
   normalize : ∀ a b, MRel a b →
     Same MEqv (ofC11 "normalize" (C11.normalize c.clean c.env a)) (ofC11 "normalize" (C11.normalize c'.clean c'.env b))
@@ -292,10 +292,18 @@ def SameButEnv (c c' : Cfg) : Prop :=
   c'.opts = c.opts ∧ c'.interp = c.interp ∧ c'.paths = c.paths ∧ c'.projectName = c.projectName ∧
   c'.omitPats = c.omitPats ∧ c'.mainFile = c.mainFile
 
+/-- **`SetDefaultValues` keeps the keys of every mapping distinct** (whole tree walk, the four handlers) -/
+theorem setDefaultValues_preserves_wf (tbl : List (List String × String)) {kvs : KVs} {r : Val} (w : MWF kvs)
+    (h : C11.setDefaultValues tbl kvs = .ok r) : WF r := setDefaults_wf tbl TPath.root (WF.map_iff.mpr w) h
+
+/-- **`ResolveRelativePaths` keeps the keys of every mapping distinct** (whole tree walk, the seven resolvers) -/
+theorem resolvePaths_preserves_wf (cfg : Paths.Cfg) {v r : Val} (w : WF v) (h : Paths.resolve cfg v = .ok r) : WF r :=
+  walk_wf Gen.resolvers cfg TPath.root w h
+
 /-- `SetDefaultValues` as run by the pipeline -/
-theorem defaultsStage_same (c : Cfg)
-    (hwf : ∀ kvs r, MWF kvs → C11.setDefaultValues Gen.defaultValues kvs = .ok r → WF r) :
-    RespectsV (Pipeline.defaultsStage c) := by
+theorem defaultsStage_same (c : Cfg) : RespectsV (Pipeline.defaultsStage c) := by
+  have hwf : ∀ kvs r, MWF kvs → C11.setDefaultValues Gen.defaultValues kvs = .ok r → WF r :=
+    fun kvs r w h => setDefaultValues_preserves_wf _ w h
   intro v w h
   obtain ⟨he, wv, ww⟩ := h
   cases he with
@@ -316,8 +324,8 @@ theorem defaultsStage_same (c : Cfg)
   | _ => simp only [Pipeline.defaultsStage, Same, optO, ORel]
 
 /-- `ResolveRelativePaths` as run by the pipeline -/
-theorem pathsStage_same (c : Cfg) (hwf : ∀ v r, WF v → Paths.resolve c.paths v = .ok r → WF r) :
-    RespectsV (Pipeline.pathsStage c) := by
+theorem pathsStage_same (c : Cfg) : RespectsV (Pipeline.pathsStage c) := by
+  have hwf : ∀ v r, WF v → Paths.resolve c.paths v = .ok r → WF r := fun v r w h => resolvePaths_preserves_wf _ w h
   intro v w h
   unfold Pipeline.pathsStage
   by_cases hs : c.opts.resolvePaths = true
@@ -395,9 +403,9 @@ theorem finishModel_same {c c' : Cfg} (R : Residual c c') (hc : SameButEnv c c')
   have e3 : Pipeline.pathsStage c' = Pipeline.pathsStage c := by funext z; simp only [Pipeline.pathsStage, ho, hp]
   unfold finishModel
   rw [e1, e2, e3]
-  refine Same.bind (defaultsStage_same c R.defaultsWF d d' hd) fun x y hxy => ?_
+  refine Same.bind (defaultsStage_same c d d' hd) fun x y hxy => ?_
   refine Same.bind (validateStage_same c x y hxy) fun x y hxy => ?_
-  refine Same.bind (pathsStage_same c R.pathsWF x y hxy) fun x y hxy => ?_
+  refine Same.bind (pathsStage_same c x y hxy) fun x y hxy => ?_
   obtain ⟨he, wx, wy⟩ := hxy
   cases he with
   | map h1 h2 =>
@@ -450,7 +458,7 @@ theorem processDocs_congr {c c' : Cfg} (hc : SameButEnv c c') : ∀ (docs : List
     | panic s => rfl
 
 /-- **`Pipeline.load` composed from its stages**: for every configuration, documents and spellings of the environment —
-with what is still assumed of six stages named in `Residual` -/
+with what is still assumed of five stages named in `Residual` -/
 theorem load_order_independent_partial {c c' : Cfg} (hc : SameButEnv c c') (hl : LookupSame c.env c'.env)
     (R : Residual c c') {docs docs' : List KVs} (h : DocsEqv docs docs') : Same MEqv (load c docs) (load c' docs') := by
   have hlen : docs.isEmpty = docs'.isEmpty := by cases h <;> rfl
